@@ -376,6 +376,11 @@ def r01_6(prog, out):
     aroot = prog.facts.body(acons[0]).root or acons[0]
     submap = A.cell("SubState", "subscriptions")
     ncall = 0
+
+    def is_topic_handle(ty):       # Arc<Topic>, lent or owned
+        ty = (ty or "").lstrip("&").replace("mut ", "").strip()
+        return ty.startswith("std::sync::Arc<%s" % A.ty("Topic"))
+
     for bid, b in prog.facts.bodies.items():
         if b.crate != "lib":
             continue
@@ -403,11 +408,11 @@ def r01_6(prog, out):
             fi = prog.info(ins[0])
             recv = bi.trace(t.args[0])
             ctor_call = fi.call_at(ins[1].bb)
-            topic_args = [a for a in ctor_call.args if (fi.body.operand_ty(a) or "").startswith("std::sync::Arc<%s" % A.ty("Topic"))]
+            topic_args = [a for a in ctor_call.args if is_topic_handle(fi.body.operand_ty(a))]
             if not topic_args:
                 # the registration step is written out in this body: the topic handed to the subscription's constructor
                 for cbb2, ct2 in fi.calls(lambda c: c.target == A.ty("Subscription") + "::new"):
-                    topic_args = [a for a in ct2.args if (fi.body.operand_ty(a) or "").startswith("std::sync::Arc<%s" % A.ty("Topic"))]
+                    topic_args = [a for a in ct2.args if is_topic_handle(fi.body.operand_ty(a))]
             same = False
             if topic_args:
                 o2 = fi.trace(topic_args[0])
